@@ -1001,9 +1001,16 @@ class Variable(CanBehaveLikeAVariable[T]):
                 self._is_false_ = is_false
             yield OperationResult(sources, is_false, self)
         elif self._domain_:
+            # a literal that is used as a condition (e.g., a python bool) is as true as its value
+            is_a_condition = isinstance(self, Literal) and (
+                isinstance(self._parent_, LogicalOperator)
+                or self is self._conditions_root_
+            )
             for v in self._domain_:
                 yield OperationResult(
-                    {**sources, self._id_: HashedValue(v)}, False, self
+                    {**sources, self._id_: HashedValue(v)},
+                    is_a_condition and not bool(v),
+                    self,
                 )
         elif self._should_be_instantiated_:
             yield from self._instantiate_using_child_vars_and_yield_results_(sources)
@@ -1871,6 +1878,12 @@ def chained_logic(
 
 
 def optimize_or(left: SymbolicExpression, right: SymbolicExpression) -> OR:
+
+    # conditions can be plain python values (e.g., a bool)
+    if not isinstance(left, SymbolicExpression):
+        left = Literal(left)
+    if not isinstance(right, SymbolicExpression):
+        right = Literal(right)
 
     def is_a_query_variable(v: HashedValue) -> bool:
         # Literals and predicate/symbolic function invocations are not variables of the query, they are computed from
